@@ -89,6 +89,18 @@ def handleZone (toks : List String) : Option String :=
       let date ← plainDateTryNew y m d
       let e ← tz.startOfDay date
       zdtNew e : Out Int).render toString)
+  | "tz_pdat" :: z :: rest => do
+    -- PlainDate::to_zoned_date_time(zone, Some(time)): the date, then the combined date-time within limits, then the
+    -- `compatible` resolution of that reading (never the start of the day)
+    let tz ← zone? z
+    let y ← int? (rest.getD 0 ""); let m ← int? (rest.getD 1 ""); let d ← int? (rest.getD 2 "")
+    let a ← dt? (rest.take 9)
+    if rest.length ≠ 9 then none else
+    some ((do
+      let _ ← plainDateTryNew y m d
+      let a ← a
+      let e ← tz.epochNsFor a .compatible
+      zdtNew e : Out Int).render toString)
   | "tz_partial" :: z :: y :: m :: d :: rest => do
     let tz ← zone? z; let y ← int? y; let m ← int? m; let d ← int? d
     let time ← optTime? (rest.take 6)
